@@ -578,6 +578,9 @@ func stAbsorbs(v string, ndiceAllowed bool, f string) bool {
 			kind = "float"
 		}
 	}
+	if v[len(v)-1] == ']' && (strings.HasPrefix(f, "kh") || strings.HasPrefix(f, "kl")) {
+		return true // array literal + kh / kl: the keep-highest / keep-lowest call of the array grammar
+	}
 	switch kind {
 	case "int", "paren":
 		if lc == 'd' && (ndiceAllowed || nos(f[1:])) {
